@@ -38,8 +38,10 @@ pub fn l1_body(lead: &'static [u8], b0: u8, n: usize, sigma: &'static [u8], asm:
     assert!(!first_after);
     let comment_or_directive = matches!(ty, RawTokenType::Comment(_) | RawTokenType::CompilerDirective | RawTokenType::ConditionalDirective(_));
     assert!(prev_after == if comment_or_directive { prev } else { Some(ty) });
-    // content of a line comment / unterminated literal never contains a line break
-    if matches!(ty, RawTokenType::Comment(CommentKind::InlineLine | CommentKind::IndividualLine) | RawTokenType::TextLiteral(TextLiteralKind::Unterminated | TextLiteralKind::SingleLine | TextLiteralKind::Asm)) {
+    // content of a line comment / single-line or unterminated literal never contains a line break
+    // (double-quoted asm literals are exempt: a backslash escapes any next byte there, a line break
+    // included -- the reference scanner mirrors that; see DESIGN.md 7.2 N3)
+    if matches!(ty, RawTokenType::Comment(CommentKind::InlineLine | CommentKind::IndividualLine) | RawTokenType::TextLiteral(TextLiteralKind::Unterminated | TextLiteralKind::SingleLine)) {
         let multi_open = s[ws] == b'\'' && ty == RawTokenType::TextLiteral(TextLiteralKind::Unterminated);
         if !multi_open {
             assert!(!contains_byte(&s[ws..len], b'\n') && !contains_byte(&s[ws..len], b'\r'));
